@@ -342,6 +342,7 @@ func runC08(r *core.Run) {
 		return
 	}
 	c := &c08Ctx{r: r, ty: ty, pi: pi}
+	warmThrift(p, ty.rt)
 	base, err, ok := c.decode(e, c08Mode{}, "valid")
 	if !ok {
 		return
@@ -397,7 +398,7 @@ func runC08(r *core.Run) {
 	}
 
 	// A. chunked delivery must not change the value
-	for i := 0; i < 3; i++ {
+	for i := 0; i < 6; i++ {
 		rd := &simio.Reader{}
 		c11Script(r, rd, t.Pick(1, 3, 3, 1, 1, 2), len(e))
 		var script []int
@@ -844,6 +845,7 @@ func c08RunScenario(r *core.Run) {
 	}
 	ty := thriftTypeOfScenario(sc)
 	c := &c08Ctx{r: r, ty: ty, pi: sc.Proto}
+	warmThrift(thriftProtos[sc.Proto], ty.rt)
 	if strings.HasPrefix(sc.Expect, "reader:") {
 		c.readerMethods(sc.Input)
 		return
@@ -892,6 +894,14 @@ func c08RunScenario(r *core.Run) {
 			r.Fail("type-mismatch", "type-mismatch-not-reported", "expected TypeMismatch, got %v", err)
 		}
 	}
+}
+
+// warmThrift makes the library build its decoder for rt before anything is
+// measured: the per-type field table (indexed by field id) is a one-time cost
+// of the type, not memory allocated on behalf of an input.
+func warmThrift(p thrift.Protocol, rt reflect.Type) {
+	defer func() { recover() }()
+	thrift.Unmarshal(p, []byte{0}, reflect.New(rt).Interface())
 }
 
 func thriftMarshalNoPanic(p thrift.Protocol, v any) (b []byte, err error) {
